@@ -579,3 +579,11 @@ package netceptor
 //@ func SendPing$3
 //@   tags C17
 //@   site block * EXITS: [C17] requires waits(ctxdone(ctxPing))
+
+// The goroutine that owns the dial-side socket of an established stream: whenever it ends, the socket has been
+// closed (otherwise the ephemeral service name stays in the listener registry for ever).
+//@ func (*Netceptor).DialContext$3
+//@   tags C17
+//@   ghostflag socketclosed set call:PacketConner.Close
+//@   site block * EXITS: [C17] requires waits(doneChan)
+//@   ensures SOCKETRELEASED: [C17] flag("socketclosed")
